@@ -182,6 +182,11 @@ def bcast(a, b):
         return None
 
 
+COMPOSITE = ("sum", "prod", "add_groups", "prod_groups")
+# kernel batch ending in 3 == number of points of the `k == n` kernel cells
+K_EQ_N = [((3,), ()), ((2, 3), ()), ((3,), (1,)), ((3, 3), (3,)), ((1, 3), (2, 1)), ((3,), (3,))]
+
+
 def pairs_all():
     S = batch_shapes()
     return [(p, d) for p in S for d in S if bcast(p, d) is not None]
@@ -393,7 +398,8 @@ def data_slice(x, db, dflat, keep):
 
 def close(a, b):
     import torch
-    return a.shape == b.shape and bool(torch.allclose(a, b, rtol=RTOL, atol=ATOL))
+    # NaN / inf produced identically by the batched module and by the replica (e.g. log of a zero call-time noise) agree
+    return a.shape == b.shape and bool(torch.allclose(a, b, rtol=RTOL, atol=ATOL, equal_nan=True))
 
 
 def err(a, b):
@@ -427,6 +433,11 @@ def kernel_families():
         "scale_matern_ard": lambda b: K.ScaleKernel(K.MaternKernel(nu=1.5, ard_num_dims=D_IN, batch_shape=B(b)), batch_shape=B(b)),
         "sum": lambda b: K.ScaleKernel(K.RBFKernel(batch_shape=B(b)), batch_shape=B(b)) + K.LinearKernel(batch_shape=B(b)),
         "prod": lambda b: K.RBFKernel(batch_shape=B(b)) * K.PeriodicKernel(batch_shape=B(b)),
+        # additive structure over input column groups: active_dims (more than one column) on the SUB-kernels
+        "add_groups": lambda b: K.ScaleKernel(K.RBFKernel(ard_num_dims=2, batch_shape=B(b), active_dims=[1, 0])
+                                              + K.MaternKernel(nu=0.5, batch_shape=B(b), active_dims=[1]), batch_shape=B(b)),
+        "prod_groups": lambda b: K.RQKernel(batch_shape=B(b), active_dims=[1, 0])
+        * K.LinearKernel(batch_shape=B(b), active_dims=[0]),
     }
 
 
@@ -481,10 +492,13 @@ def each_replica(ctx, fam, what, pb, db, tab, out, make_replica_out, replay):
             return
 
 
-def part_b_kernels(ctx, T, pairs, names=None):
+def part_b_kernels(ctx, T, pairs, names=None, n1=4):
+    """n1 = 4 differs from every batch size; the `k == n` cells (kernel batch size equal to the number of points, inputs
+    with fewer batch dims than the kernel) are run separately with n1 = 3."""
     import torch
+    import gpytorch
     fams = kernel_families()
-    n1, n2 = 4, 2     # n1 differs from every batch size (a `batch x n` diag with batch == n is C06's ambiguity defect)
+    n2 = 2
     for fam, mk in fams.items():
         if names and fam not in names:
             continue
@@ -494,7 +508,7 @@ def part_b_kernels(ctx, T, pairs, names=None):
             randomize(kb, f"k:{fam}:{pb}")
             g = _gen(f"kx:{fam}:{pb}:{db}")
             x1, x2 = _randn(g, *db, n1, D_IN), _randn(g, *db, n2, D_IN)
-            rp = {"part": "kernel", "family": fam, "param_batch": list(pb), "data_batch": list(db), "round": _SALT[0]}
+            rp = {"part": "kernel", "family": fam, "param_batch": list(pb), "data_batch": list(db), "round": _SALT[0], "n1": n1}
             try:
                 with torch.no_grad(), warnings.catch_warnings():
                     warnings.simplefilter("ignore")
@@ -531,6 +545,45 @@ def part_b_kernels(ctx, T, pairs, names=None):
                 except RuntimeError:
                     ctx.fail(f"{fam}:diag:shape", f"{fam} param batch {pb}, data batch {db}: kernel(x, diag=True) has shape "
                              f"{tuple(diag.shape)}, expected {bs + (n1,)}", rp)
+            # element b taken by INDEXING: the lazily evaluated output `kernel(x1,x2)[b]` and the kernel itself `kernel[b]`
+            if bs:
+                import itertools as _it
+                x1e, x2e = x1.expand(*bs, n1, D_IN), x2.expand(*bs, n2, D_IN)
+                for lazy in (True, False):
+                    outs, outk = [], []
+                    ok = True
+                    for b in _it.product(*[range(v) for v in bs]):
+                        try:
+                            with torch.no_grad(), gpytorch.settings.lazily_evaluate_kernels(lazy), warnings.catch_warnings():
+                                warnings.simplefilter("ignore")
+                                o = kb(x1, x2)[b]
+                                outs.append(o.to_dense() if hasattr(o, "to_dense") else o)
+                                if tuple(pb) == bs:
+                                    o2 = kb[b](x1e[b], x2e[b])
+                                    outk.append(o2.to_dense() if hasattr(o2, "to_dense") else o2)
+                        except Exception as e:
+                            ok = False
+                            ctx.case(f"b|{fam}|index-raises|{pb}|{db}|{lazy}")
+                            if fam in COMPOSITE and tuple(pb) != bs:
+                                # Additive/Product kernels whose batch only exists by broadcasting: after expand_batch the
+                                # composite keeps a stale `_batch_shape` and the debug shape check raises (explicit error, also
+                                # counted by C06 as rejected_composite_or_multioutput) — counted, not a batch-replica failure
+                                ctx.count("index_rejected_composite_broadcast")
+                                break
+                            ctx.fail(f"{fam}:index:raises", f"{fam} param batch {pb}, data batch {db}, lazy={lazy}: taking batch "
+                                     f"element {b} by indexing (kernel(x1,x2)[b] / kernel[b]) raises {type(e).__name__}: "
+                                     f"{str(e)[:160]}", dict(rp, lazy=lazy))
+                            break
+                    if ok:
+                        try:
+                            each_replica(ctx, fam, f"kernel(x1,x2)[b] (lazy={lazy})", pb, db, tab, torch.stack(outs).reshape(*bs, *outs[0].shape),
+                                         lambda pf, df: rep(pf, df, "full"), dict(rp, lazy=lazy))
+                            if outk:
+                                each_replica(ctx, fam, f"kernel[b](x1[b],x2[b]) (lazy={lazy})", pb, db, tab,
+                                             torch.stack(outk).reshape(*bs, *outk[0].shape), lambda pf, df: rep(pf, df, "full"), dict(rp, lazy=lazy))
+                        except RuntimeError as e:
+                            ctx.fail(f"{fam}:index:shape", f"{fam} param batch {pb}, data batch {db}, lazy={lazy}: the elements taken by "
+                                     f"indexing do not have a common shape: {str(e)[:120]}", dict(rp, lazy=lazy))
 
 
 def part_b_means(ctx, T, pairs):
@@ -618,6 +671,45 @@ def part_b_likelihoods(ctx, T, pairs):
                 mcov_e, mmean_e = mcov, mmean
             each_replica(ctx, "lik_" + fam, "marginal covariance", pb, db, tab, mcov_e, lambda pf, df: rep(pf, df, "cov"), rp)
             each_replica(ctx, "lik_" + fam, "marginal mean", pb, db, tab, mmean_e, lambda pf, df: rep(pf, df, "mean"), rp)
+            # every public entry point, with and without a call-time `noise=` (batched like the likelihood; incl. 0.0 entries)
+            y = _randn(g, *bs, n)
+            call_noise = (0.05 + _randn(g, *pb, n).abs())
+            if call_noise.numel():
+                call_noise.reshape(-1)[0] = 0.0          # a legal-but-unusual value: exactly zero noise at one point
+            for kwname, kwv in (("", None), (" (noise=)", call_noise)):
+                if kwv is not None and fam == "fixed_noise_learned":
+                    continue          # C12's territory: the interplay of call-time noise and the learned extra noise
+                for ename in ("marginal", "log_marginal", "expected_log_prob"):
+                    def run(l_, mean_, cov_, y_, nz_):
+                        kw = {} if nz_ is None else {"noise": nz_}
+                        d_ = MultivariateNormal(mean_, cov_)
+                        if ename == "marginal":
+                            return l_(d_, **kw).covariance_matrix
+                        if ename == "log_marginal":
+                            return l_.log_marginal(y_, d_, **kw)
+                        return l_.expected_log_prob(y_, d_, **kw)
+                    what = ename + kwname
+                    try:
+                        with torch.no_grad(), warnings.catch_warnings():
+                            warnings.simplefilter("ignore")
+                            out = run(lik, mean, cov, y, kwv)
+                        ev = 2 if ename == "marginal" else 1
+                        out = out.expand(torch.Size(tuple(bs) + tuple(out.shape[out.dim() - ev:])))
+                    except Exception as e:
+                        raised(ctx, "lik_" + fam, pb, db, bs, e, rp, what=what)
+                        continue
+                    holder = [0]
+
+                    def rep2(pf, df, holder=holder, kwv=kwv, run=run):
+                        e_ = holder[0]
+                        holder[0] += 1
+                        r = mk((), fixed.reshape(npb, n)[pf])
+                        load_slice(lik, r, pb, pf)
+                        nz = None if kwv is None else kwv.reshape(npb, n)[pf]
+                        with torch.no_grad(), warnings.catch_warnings():
+                            warnings.simplefilter("ignore")
+                            return run(r, data_slice(mean, db, df, 1), data_slice(cov, db, df, 2), y.reshape(-1, n)[e_], nz)
+                    each_replica(ctx, "lik_" + fam, what, pb, db, tab, out, rep2, rp)
 
 
 def make_lik(b, prior):
@@ -647,6 +739,127 @@ def _exact_model_cls():
         def forward(self, x):
             return gpytorch.distributions.MultivariateNormal(self.mean_module(x), self.covar_module(x))
     return ExactModel
+
+
+MIXED = [((2, 3), (3,), ()), ((2,), (), ()), ((3, 2), (2,), (2,)), ((2, 3), (), (3,)), ((2,), (2,), ()), ((), (2,), ()),
+         ((2, 1), (3,), ()), ((3,), (), (2, 1)), ((2, 2), (2,), (1, 2))]
+
+
+def part_b_mixed(ctx, T, _pairs=None, only=None):
+    """Exact GP whose modules carry DIFFERENT batch shapes (mean batch, kernel = likelihood batch, input batch): the
+    prior / posterior / MLL have the broadcast batch shape, their element b is the non-batched model built from the
+    mean slice bidx b, the kernel slice bidx b and the data slice bidx b — also when the element is taken by indexing
+    the distribution (`prior[a]`, `prior[b]`)."""
+    import torch
+    import gpytorch
+    n, m = 4, 3
+
+    class Mixed(gpytorch.models.ExactGP):
+        def __init__(self, tx, ty, lik, mb, kb):
+            super().__init__(tx, ty, lik)
+            self.mean_module = gpytorch.means.ConstantMean(batch_shape=torch.Size(mb))
+            self.covar_module = gpytorch.kernels.ScaleKernel(
+                gpytorch.kernels.RBFKernel(ard_num_dims=D_IN, batch_shape=torch.Size(kb)), batch_shape=torch.Size(kb))
+
+        def forward(self, x):
+            return gpytorch.distributions.MultivariateNormal(self.mean_module(x), self.covar_module(x))
+
+    def idx(shape):
+        k = 1
+        for v in shape:
+            k *= v
+        return torch.arange(k).reshape(shape)
+    for mb, kb, xb in MIXED:
+        if only is not None and [list(mb), list(kb), list(xb)] != [list(v) for v in only]:
+            continue
+        bs = tuple(torch.broadcast_shapes(mb, kb, xb))
+        # slices per broadcast element: through the driver's tables (two broadcast steps)
+        t1 = T.get(mb, kb)
+        t2 = T.get(t1[0], xb) if (t1[0], xb) in T.tab else None
+        if t2 is None:
+            I1, I2, I3 = torch.broadcast_tensors(idx(mb), idx(kb), idx(xb))
+            mi, ki, xi = I1.reshape(-1).tolist(), I2.reshape(-1).tolist(), I3.reshape(-1).tolist()
+        else:
+            mi = [t1[1][j] for j in t2[1]]
+            ki = [t1[2][j] for j in t2[1]]
+            xi = t2[2]
+        g = _gen(f"mixed:{mb}:{kb}:{xb}")
+        tx, xs = _randn(g, *xb, n, D_IN), _randn(g, *xb, m, D_IN)
+        ty = _randn(g, *bs, n)
+        fam = "exact_gp_mixed"
+        rp = {"part": "mixed", "family": fam, "mean_batch": list(mb), "kernel_batch": list(kb), "x_batch": list(xb), "round": _SALT[0]}
+        mod = Mixed(tx, ty, make_lik(kb, False), mb, kb).double()
+        randomize(mod, f"mixp:{mb}:{kb}")
+        where = f"{fam} mean batch {mb}, kernel batch {kb}, input batch {xb} (broadcast {bs})"
+        ctx.case(f"b|{fam}|{mb}|{kb}|{xb}|{_SALT[0]}", nontrivial=True,
+                 sample={"family": fam, "mean_batch": list(mb), "kernel_batch": list(kb), "x_batch": list(xb)})
+        ctxs = (torch.no_grad(), gpytorch.settings.fast_computations(False, False, False), gpytorch.settings.max_cholesky_size(10000))
+
+        def slices(mdl_from, kbs, e):
+            r = Mixed(data_slice(tx, xb, xi[e], 2), ty.reshape(-1, n)[e], make_lik((), False), (), ()).double()
+            with torch.no_grad():
+                bp = dict(mdl_from.named_parameters())
+                for name, p_ in r.named_parameters():
+                    src = bp[name]
+                    sb = mb if name.startswith("mean_module") else kb
+                    fl = mi[e] if name.startswith("mean_module") else ki[e]
+                    k_ = 1
+                    for v in sb:
+                        k_ *= v
+                    p_.copy_(src.reshape(k_, *src.shape[len(sb):])[fl].reshape(p_.shape))
+            return r
+        exp = {"prior mean": [], "prior covariance": [], "posterior mean": [], "posterior covariance": [], "exact MLL": []}
+        with warnings.catch_warnings():
+            warnings.simplefilter("ignore")
+            for e in range(len(mi)):
+                r = slices(mod, kb, e)
+                with ctxs[0], ctxs[1], ctxs[2]:
+                    r.train()
+                    o = r(r.train_inputs[0])
+                    exp["prior mean"].append(o.mean)
+                    exp["prior covariance"].append(o.covariance_matrix)
+                    exp["exact MLL"].append(gpytorch.mlls.ExactMarginalLogLikelihood(r.likelihood, r)(o, r.train_targets))
+                    r.eval()
+                    po = r(data_slice(xs, xb, xi[e], 2))
+                    exp["posterior mean"].append(po.mean)
+                    exp["posterior covariance"].append(po.covariance_matrix)
+        exp = {k_: torch.stack(v).reshape(*bs, *v[0].shape) for k_, v in exp.items()}
+
+        def cmp(what, got, want):
+            if tuple(got.shape) != tuple(want.shape):
+                ctx.fail(f"{fam}:{what}:shape", f"{where}: {what} has shape {tuple(got.shape)}, the broadcast batch gives "
+                         f"{tuple(want.shape)}", dict(rp, what=what))
+                return
+            if not close(got, want):
+                ctx.fail(f"{fam}:{what}", f"{where}: {what} differs from the stack of non-batched replicas: {err(got, want)}",
+                         dict(rp, what=what))
+        try:
+            with ctxs[0], ctxs[1], ctxs[2], warnings.catch_warnings():
+                warnings.simplefilter("ignore")
+                mod.train()
+                prior = mod(tx)
+                if tuple(prior.batch_shape) != bs:
+                    ctx.fail(f"{fam}:prior:batch_shape", f"{where}: prior.batch_shape is {tuple(prior.batch_shape)}", rp)
+                cmp("prior mean", prior.mean, exp["prior mean"])
+                cmp("prior covariance", prior.covariance_matrix, exp["prior covariance"])
+                cmp("prior lazy covariance", prior.lazy_covariance_matrix.to_dense(), exp["prior covariance"])
+                # elements taken by indexing the distribution
+                import itertools as _it
+                for depth in range(1, len(bs) + 1):
+                    for b in _it.product(*[range(v) for v in bs[:depth]]):
+                        key = b if depth > 1 else b[0]
+                        d = prior[key]
+                        cmp(f"prior[{key}] mean", d.mean, exp["prior mean"][b])
+                        cmp(f"prior[{key}] covariance", d.covariance_matrix, exp["prior covariance"][b])
+                cmp("exact MLL", gpytorch.mlls.ExactMarginalLogLikelihood(mod.likelihood, mod)(mod(tx), ty), exp["exact MLL"])
+                mod.eval()
+                post = mod(xs)
+                cmp("posterior mean", post.mean, exp["posterior mean"])
+                cmp("posterior covariance", post.covariance_matrix, exp["posterior covariance"])
+                for a in range(bs[0]) if bs else []:
+                    cmp(f"posterior[{a}] covariance", post[a].covariance_matrix, exp["posterior covariance"][a])
+        except Exception as e:
+            raised(ctx, fam, mb, xb, bs, e, rp)
 
 
 def part_b_exact(ctx, T, pairs):
@@ -973,11 +1186,12 @@ def correspondence(ctx, want_driver=True):
         P = pairs_all()
         if ctx.quick:
             sel = {"kernels": pairs_cover(rng, 6), "means": P, "liks": pairs_cover(rng, 20),
-                   "exact": pairs_cover(rng, 4), "var": pairs_cover(rng, 0)}
+                   "exact": pairs_cover(rng, 4), "var": pairs_cover(rng, 0), "mixed": None}
         else:
             sel = {k: P for k in ("kernels", "means", "liks", "exact", "var")}
+            sel["mixed"] = None
         ctx.notes["pairs_total"] = len(P)
-        ctx.notes["pairs_used"] = {k: len(v) for k, v in sel.items()}
+        ctx.notes["pairs_used"] = {k: len(v) for k, v in sel.items() if v is not None}
         T = Tables(P)
         # the driver's tables against torch's own broadcasting (exact)
         for (pb, db) in P:
@@ -989,8 +1203,13 @@ def correspondence(ctx, want_driver=True):
                 ctx.broke("correspondence", "replicaTable vs torch.broadcast_tensors", f"{pb} {db}: {bs} {pidx} {didx}")
         for rnd in range(1 if ctx.quick else 4):
             _SALT[0] = rnd
+            try:   # k == n: kernel batch size equal to the number of points, inputs with fewer batch dims than the kernel
+                part_b_kernels(ctx, T, K_EQ_N if ctx.quick else [(p_, d_) for (p_, d_) in P if p_ and p_[-1] == 3], n1=3)
+            except Exception:
+                import traceback
+                ctx.broke("correspondence", "part_b_kernels (k == n) crashed", traceback.format_exc())
             for part, key in ((part_b_kernels, "kernels"), (part_b_means, "means"), (part_b_likelihoods, "liks"),
-                              (part_b_exact, "exact"), (part_b_variational, "var")):
+                              (part_b_exact, "exact"), (part_b_mixed, "mixed"), (part_b_variational, "var")):
                 try:
                     part(ctx, T, sel[key])
                 except Exception:      # one family crashing must not hide the others
@@ -1079,9 +1298,12 @@ def replay(ctx, payload):
             if lines:
                 compare(sub, lines, recs)
             return not sub.failures
+        if c.get("part") == "mixed":
+            part_b_mixed(sub, Tables(pairs_all()), only=[c["mean_batch"], c["kernel_batch"], c["x_batch"]])
+            return not sub.failures
         pb, db = tuple(c["param_batch"]), tuple(c["data_batch"])
         T = Tables([(pb, db)])
-        fn = {"kernel": lambda: part_b_kernels(sub, T, [(pb, db)], names=[c["family"]]),
+        fn = {"kernel": lambda: part_b_kernels(sub, T, [(pb, db)], names=[c["family"]], n1=c.get("n1", 4)),
               "mean": lambda: part_b_means(sub, T, [(pb, db)]),
               "likelihood": lambda: part_b_likelihoods(sub, T, [(pb, db)]),
               "exact": lambda: part_b_exact(sub, T, [(pb, db)]),
